@@ -9,13 +9,14 @@ import asyncio
 import itertools
 import os
 import signal
+import time
 
 import edzed
 
 from .. import vtime
 
 ID = 'C08'
-RULE = ("circuits of 1-5 blocks over 8 block kinds (probe SBlock, probe AddonMainTask block with "
+RULE = ("circuits of 1-5 blocks over 9 block kinds (probe SBlock, probe AddonMainTask block with "
         "init_async/stop_async/main task, probe AddonAsync block with init_async only, probe AddonAsync block with "
         "stop_async and no task incl. stop_timeout=0, probe CBlock, real Timer, OutputFunc, OutputAsync; '_ctrl' created by "
         "Event.shutdown()/Event.abort()) with a fault script per phase (start, restore, init_async, "
@@ -29,7 +30,8 @@ RULE = ("circuits of 1-5 blocks over 8 block kinds (probe SBlock, probe AddonMai
         "of the synchronous set were seen (tags stop-order-both-seen / stop-order-one-only); "
         "persistent probe blocks (persistent=True) with and without an entry in the storage, so that the 'save the "
         "state' step of run_forever meets started but uninitialised blocks; the storage entries after the run are compared; "
-        "a caller of wait_init() -- plain task, supporting coroutine of run() (cancelled by run() when the first task "
+        "persistent timed FSM probes whose saved state is timed and unexpired, with calc_output raising / returning UNDEF "
+        "during the restore x initdef timed / untimed / absent; a caller of wait_init() -- plain task, supporting coroutine of run() (cancelled by run() when the first task "
         "ends), or a direct task cancelled from outside at a chosen instant while the circuit keeps running -- with every "
         "cause, before and after the initialisation is complete; the helper task of wait_init() is looked for among ALL "
         "tasks of the loop (by its coroutine) just before / right after the outside cancellation and at the end; "
@@ -232,6 +234,25 @@ class PTimer(ProbeMixin, edzed.Timer):
     pass
 
 
+class PRTimer(ProbeMixin, edzed.FSM):
+    """persistent timed FSM whose saved state ('on') is timed and not expired; flag X: calc_output fails on the
+    restored state -- it raises ('rmode' = 'raise') or returns UNDEF ('undef') at its first call, which is the
+    one made by _restore_state"""
+    STATES = ['off', 'on']
+    TIMERS = {'on': (FAR, 'stop')}
+    EVENTS = [('start', None, 'on'), ('stop', None, 'off')]
+
+    def calc_output(self):
+        p = self.x_p
+        if not p.get('_first_call_done'):
+            p['_first_call_done'] = True
+            if 'X' in p.get('flags', ''):
+                if p.get('rmode') == 'undef':
+                    return edzed.UNDEF
+                raise Boom(f'{self.name}.calc_output during the restore')
+        return self._state == 'on'
+
+
 class POutF(ProbeMixin, edzed.OutputFunc):
     pass
 
@@ -302,6 +323,10 @@ def build(scn, notes):
         elif kind == 'timer':
             kw = {'initdef': 'on'} if 'm' in flags else {}
             blk = PTimer(name, t_on=FAR, x_p=p, **kw)
+        elif kind == 'rtimer':
+            kw = {'initdef': 'on'} if 'm' in flags else ({'initdef': 'off'} if 'f' in flags else {})
+            blk = PRTimer(name, persistent=True, x_p=p, **kw)
+            storage[str(blk)] = ('on', time.time() + FAR, {})       # a timed state, far from its expiration
         elif kind == 'outf':
             def func(value, _i=i, _n=name):
                 REC.log.append(('out', _i, value == 'STOP', REC.now()))
@@ -367,7 +392,7 @@ def build(scn, notes):
             raise ValueError(kind)
         objs.append(blk)
     # a storage is set up as soon as one block is persistent; it may be empty (first run)
-    if any(f in b.get('flags', '') for b in blocks for f in 'rp'):
+    if any(f in b.get('flags', '') for b in blocks for f in 'rp') or any(b['kind'] == 'rtimer' for b in blocks):
         edzed.get_circuit().set_persistent_data(storage)
     if not scn['cause'].get('before'):
         storage.circuit = edzed.get_circuit()       # armed from the moment the circuit records its error
@@ -375,7 +400,7 @@ def build(scn, notes):
     return names, objs
 
 
-MODEL_KIND = {'trig': 'sync', 'inp': 'sync', 'valid': 'cblock', 'ratio': 'cblock'}
+MODEL_KIND = {'rtimer': 'timer', 'trig': 'sync', 'inp': 'sync', 'valid': 'cblock', 'ratio': 'cblock'}
 
 
 def blk_line(b):
@@ -385,6 +410,9 @@ def blk_line(b):
         flags += 's'
     if b['kind'] == 'inp':
         flags += 'd'
+    if b['kind'] == 'rtimer':
+        # persistent, entry in the storage, saved state timed; 'f' (initdef 'off') is the untimed default spelled out
+        flags = flags.replace('f', '') + 'srpT'
     if b['kind'] == 'ainit':
         flags += 'a'
 
@@ -871,6 +899,11 @@ def oracle_run(scn, r):
         out.append({'clause': 'no_pending_timer',
                     'what': f'timer handles still scheduled after the simulation finished: {handles}',
                     'sig': {'shape': 'event_to_never_started_fsm' if never_started else 'timer_after_stop'}})
+        restored = [k for k, b in enumerate(scn['blocks']) if b['kind'] == 'rtimer' and f'timer:{k}' in handles]
+        if restored:
+            out[-1]['what'] += (' -- a timer armed by _restore_state although the restore failed (calc_output '
+                                'fault), orphaned when the block was initialised into a timed state afterwards')
+            out[-1]['sig']['shape'] = 'timer_of_failed_restore'
     if r['restart'] != 'InvalidState' or r['modify'] != 'InvalidState':
         out.append({'clause': 'no_restart_no_modify',
                     'what': f"run_forever() again -> {r['restart']}, new block -> {r['modify']}"})
@@ -926,7 +959,8 @@ def finish(blocks, cause, rng=None, runner=None, wait_init=None, sfault=None, wa
         elif waiter == 'cancel' and not has_outf:
             scn['waiter'] = 'cancel'
             scn['wcancel'] = wcancel
-    if sfault and any(f in b.get('flags', '') for b in blocks for f in 'rp'):
+    if sfault and (any(f in b.get('flags', '') for b in blocks for f in 'rp')
+                   or any(b['kind'] == 'rtimer' for b in blocks)):
         scn['sfault'] = sfault      # only with a storage, i.e. with a persistent block
     return scn
 
@@ -1010,6 +1044,20 @@ def defect_scenarios():
     # a persistent block that is started but still uninitialised when the simulation is terminated, with and
     # without an old entry in the storage: init_regular fault of an earlier / later block, never initialised
     # block, abort during the asynchronous initialisation, start() fault after it
+    # calc_output fails (raises / returns UNDEF) during the restore of a persistent timed FSM whose saved state is timed
+    # and unexpired, then the block is initialised from initdef: timed / untimed / absent -- every cause
+    for rmode in ('raise', 'undef', None):
+        for idf in ('m', 'f', ''):
+            rt = mk('rtimer', ('X' if rmode else '') + idf, **({'rmode': rmode} if rmode else {}))
+            for ck, t, run in (('shutdown', 205, None), ('abort', 205, None), ('supportEnd', 205, 'run'),
+                               ('supportFail', 205, 'run'), ('sigterm', 205, 'run'), ('ctrlShutdown', 805, None),
+                               ('ctrlAbort', 805, None), ('innerShutdown', 805, None), ('shutdown', 15, None)):
+                yield finish([mk('sync', 's'), dict(rt), mk('async', 'sa', idur=40, ito=63)], {'kind': ck, 'time': t},
+                             runner=run)
+            yield finish([dict(rt), mk('sync', 'sG')], {'kind': 'shutdown', 'time': 205})
+            yield finish([dict(rt), mk('cblock', 'C')], {'kind': 'shutdown', 'time': 205})
+            yield finish([dict(rt), mk('async', 's', mf=57)], {'kind': 'shutdown', 'time': 205})
+            yield finish([dict(rt), mk('sync', 'sS')], {'kind': 'shutdown', 'time': 205})
     # somebody is waiting in wait_init() when the simulation is terminated / is cancelled there from outside:
     # every cause, before and after the initialisation is complete (base circuit: async init until 140)
     for ck in ('supportEnd', 'supportFail', 'sigterm', 'shutdown', 'abort'):
@@ -1065,7 +1113,7 @@ def random_scenario(rng):
     zero_sdur_used = False
     for i in range(n):
         kind = rng.choice(['sync', 'sync', 'async', 'async', 'async', 'cblock', 'timer', 'outf', 'outa',
-                           'ainit', 'aplain'])
+                           'ainit', 'aplain', 'rtimer'])
         fl = ''
         b = mk(kind)
         if kind in ('sync', 'async', 'ainit', 'aplain'):
@@ -1113,6 +1161,12 @@ def random_scenario(rng):
             fl += 'C'
         if kind == 'timer' and rng.random() < 0.5:
             fl += 'm'
+        if kind == 'rtimer':
+            # calc_output fault during the restore x initdef timed ('on') / untimed, given ('off') / absent
+            if rng.random() < 0.6:
+                fl += 'X'
+                b['rmode'] = rng.choice(['raise', 'undef'])
+            fl += rng.choice(['m', 'm', 'f', ''])
         if kind in ('outf', 'outa') and rng.random() < 0.75:
             fl += 't'
         if kind == 'outa':
@@ -1197,3 +1251,9 @@ def shrink(scn):
             yield {**scn, 'blocks': nb}
     if scn['cause'].get('late'):
         yield {**scn, 'cause': {**scn['cause'], 'late': False}}
+    if scn.get('sfault'):
+        yield {k: v for k, v in scn.items() if k != 'sfault'}
+    if scn.get('wait_init') and not any(b['kind'] == 'outf' for b in blocks):
+        yield {k: v for k, v in scn.items() if k not in ('waiter', 'wcancel')} | {'wait_init': False}
+    if scn.get('runner') == 'run' and scn['cause']['kind'] in ('shutdown', 'abort'):
+        yield {k: v for k, v in scn.items() if k not in ('waiter', 'wcancel')} | {'runner': 'task'}
